@@ -1,0 +1,32 @@
+//go:build verif
+
+// Package verifhook provides instrumentation points for external
+// verification harnesses.  With the "verif" build tag, At calls the
+// handler installed with Set, if any.
+package verifhook
+
+import "sync/atomic"
+
+type handler struct {
+	f func(point string, args ...any)
+}
+
+var current atomic.Pointer[handler]
+
+// Set installs f as the handler called at every instrumentation point.
+// A nil f removes the handler.
+func Set(f func(point string, args ...any)) {
+	if f == nil {
+		current.Store(nil)
+		return
+	}
+	current.Store(&handler{f})
+}
+
+// At marks an instrumentation point.
+func At(point string, args ...any) {
+	h := current.Load()
+	if h != nil {
+		h.f(point, args...)
+	}
+}
